@@ -104,3 +104,26 @@ if _LOG:
 
         builtins.__import__ = _import
         importlib.import_module = _import_module
+
+        # Environment variables read by files of the package under test (os.environ[...], .get, `in`, os.getenv all end in
+        # _Environ.__getitem__): the check re-runs its workload with every variable it saw being consulted set.
+        _env_seen = set()
+        _orig_env_getitem = os._Environ.__getitem__
+
+        def _env_getitem(self, key):
+            try:
+                if self is os.environ and key not in _env_seen:
+                    frame = sys._getframe(1)
+                    depth = 0
+                    while frame is not None and depth < 6:
+                        if frame.f_code.co_filename.startswith(_PKG):
+                            _env_seen.add(key)
+                            _emit({"e": "env-read", "name": key, "reader": frame.f_code.co_filename, "set": key in self._data or (hasattr(self, "encodekey") and self.encodekey(key) in self._data)})
+                            break
+                        frame = frame.f_back
+                        depth += 1
+            except Exception:  # pylint: disable=broad-except
+                pass
+            return _orig_env_getitem(self, key)
+
+        os._Environ.__getitem__ = _env_getitem
